@@ -291,23 +291,36 @@ type TypeInfo struct {
 type Subst map[*types.TypeParam]types.Type
 
 func (x *Exec) resolve(t types.Type) types.Type {
-	for {
-		tp, ok := t.(*types.TypeParam)
-		if !ok {
-			return t
-		}
-		found := false
+	if len(x.sigma) == 0 || t == nil {
+		return t
+	}
+	switch u := t.(type) {
+	case *types.TypeParam:
 		for k, v := range x.sigma {
-			if k == tp || (k.Obj().Name() == tp.Obj().Name() && k.Obj().Pos() == tp.Obj().Pos()) {
-				t = v
-				found = true
-				break
+			if k == u || (k.Obj().Name() == u.Obj().Name() && k.Obj().Pos() == u.Obj().Pos()) {
+				return x.resolve(v)
 			}
 		}
-		if !found {
-			return t
+		return t
+	case *types.Slice:
+		if e := x.resolve(u.Elem()); e != u.Elem() {
+			return types.NewSlice(e)
+		}
+	case *types.Pointer:
+		if e := x.resolve(u.Elem()); e != u.Elem() {
+			return types.NewPointer(e)
+		}
+	case *types.Array:
+		if e := x.resolve(u.Elem()); e != u.Elem() {
+			return types.NewArray(e, u.Len())
+		}
+	case *types.Map:
+		k, e := x.resolve(u.Key()), x.resolve(u.Elem())
+		if k != u.Key() || e != u.Elem() {
+			return types.NewMap(k, e)
 		}
 	}
+	return t
 }
 
 func basicInfo(t types.Type) (TypeInfo, bool) {
